@@ -998,11 +998,17 @@ def c19(ctx):
     ctx.extra_cov["census"] = {}
     for cname, archive in census:
         out = ctx.sh(["nm", "-A", archive]).stdout.decode()
-        dsyms, alloc = [], []
+        dsyms, alloc, envimp = [], [], []
         for l in out.splitlines():
             parts = l.split()
             if len(parts) >= 2 and parts[-2] == "U" and parts[-1] in ("malloc", "calloc", "realloc", "free", "posix_memalign", "mmap", "sbrk", "aligned_alloc", "strdup"):
                 alloc.append(l)
+            # imports through which results could come to depend on the process environment or on hidden shared state
+            if len(parts) >= 2 and parts[-2] == "U" and re.match(r"^(getenv|secure_getenv|setenv|putenv|time|clock|clock_gettime|gettimeofday|localtime(_r)?|gmtime(_r)?|setlocale|"
+                                                                 r"getpid|getppid|gettid|fork|vfork|signal|sigaction|sigprocmask|raise|alarm|setitimer|rand|srand|rand_r|random|srandom|"
+                                                                 r"drand48|lrand48|pthread_\w+|fopen|fprintf|printf|puts|fputs|fwrite|fread|getc|fgets|sleep|usleep|nanosleep|dlopen|dlsym|"
+                                                                 r"__tls_get_addr|atexit|on_exit|setjmp|longjmp)$", parts[-1]):
+                envimp.append(l)
         # writable sections only (.data.rel.ro* is read-only once relocated and is not state)
         od = ctx.sh(["objdump", "-t", archive]).stdout.decode()
         ctx.count("census_archives", 1)
@@ -1022,6 +1028,8 @@ def c19(ctx):
             ctx.violation("census-writable-static-data:" + l.split()[-1], {"build": cname + "-nm", "detail": "object file defines writable static/global data: " + l})
         for l in alloc:
             ctx.violation("census-allocator-import:" + l.split()[-1], {"build": cname + "-nm", "detail": "object file imports an allocator: " + l})
+        for l in envimp:
+            ctx.violation("census-environment-import:" + l.split()[-1], {"build": cname + "-nm", "detail": "object file imports a function through which results depend on the process environment, the clock, signals, other threads or hidden library state: " + l})
     ctx.rule = ("table of N operations over 14 operation types (6 AEAD/SIV encrypt+decrypt+reject, hash, HMAC, HKDF one-shot and incremental, PBKDF2, PRNG with "
                 "callback, PRNG with the system source (OS call interposed by a per-thread deterministic stub), clean+free), inputs from (seed, op index), all on "
                 "private stack objects. Monitor 1: serial pass, then T threads each run a random permutation of the whole table (barrier start, yield/nanosleep "
@@ -1030,7 +1038,7 @@ def c19(ctx):
                 "(type, type) pairs observed in flight simultaneously + snapshot/heap operation types. Monitor 2: hash of libtinyjambu.so's writable mappings "
                 "before/after every operation (LD_BIND_NOW=1). Monitor 3: malloc/calloc/realloc/free/posix_memalign/mmap interposed, any call inside a library call "
                 "is a violation. Monitor 4: the table in 4 different orders in separate processes + 40 operations alone in fresh processes give identical results. "
-                "Census: nm/objdump show no writable data symbols (.data/.bss/.tdata/.tbss/COMMON) and no allocator imports in the production archive and in 10 other configurations of the same sources (the four system-entropy variants, no explicit_bzero, -O0, -Os, clang, NDEBUG, strict C99).")
+                "Census: nm/objdump show no writable data symbols (.data/.bss/.tdata/.tbss/COMMON), no allocator imports and no imports of environment / clock / signal / thread / stdio / PRNG functions in the production archive and in 10 other configurations of the same sources (the four system-entropy variants, no explicit_bzero, -O0, -Os, clang, NDEBUG, strict C99).")
     ctx.exhaustive = False
     ctx.assumptions += ["ThreadSanitizer only sees interleavings that happened; the snapshot, census and heap monitors do not depend on scheduling",
                         "concurrent use of the same object is outside the property"]
